@@ -33,18 +33,45 @@ def bracket(prog, rep, sites, method, label, is_open, is_close, is_abort):
     closes = [s for s in ss if is_close(s.stmt)]
     aborts = [s for s in ss if is_abort(s.stmt)]
     writes = [s for s in ss if s.stmt.kind in ("INSERT", "UPDATE", "DELETE")]
-    rep.floor("sql-bracket", "%s: bracket open statement" % label, len(opens), 1)
-    rep.floor("sql-bracket", "%s: bracket close statement" % label, len(closes), 1)
-    rep.floor("sql-bracket", "%s: bracket abort statement" % label, len(aborts), 1)
+    # the RAII form of the same bracket: rusqlite's Transaction / Savepoint guard (rolled back when dropped, `commit` consumes it)
+    raii_open, raii_close, raii_defused = [], [], []
+    for pth in sorted(ext):
+        g = prog.fns.get(pth)
+        if g is None or g.crate != "mdk_sqlite_storage" or g.is_test_like():
+            continue
+        for c in g.live_calls():
+            dty = g.locals[c.dst[0]] if c.dst else ""
+            if c.krate == "rusqlite" and ("rusqlite::Transaction<" in dty or "rusqlite::Savepoint<" in dty
+                                                                                 or "transaction::Transaction<" in dty or "transaction::Savepoint<" in dty):
+                raii_open.append(c)
+            if c.name == "commit" and last_seg(c.self_adt) in ("Transaction", "Savepoint"):
+                raii_close.append(c)
+            if c.name in ("set_drop_behavior", "forget", "leak") or (c.name == "new" and last_seg(c.self_adt) == "ManuallyDrop"):
+                raii_defused.append(c)
+    raii = bool(raii_open) and not opens
+    rep.floor("sql-bracket", "%s: bracket open statement" % label, len(opens) + len(raii_open), 1)
+    rep.floor("sql-bracket", "%s: bracket close statement" % label, len(closes) + len(raii_close), 1)
+    rep.floor("sql-bracket", "%s: bracket abort statement" % label, len(aborts) + (1 if raii else 0), 1)
     rep.floor("sql-bracket", "%s: write statements" % label, len(writes), 2)
-    if not (opens and closes and aborts):
-        return
-    F = opens[0].fn
-    oc = [c for s in opens for c in exec_calls(s)]
-    cc = [c for s in closes for c in exec_calls(s) if s.fn is F]
-    ac = [c for s in aborts for c in exec_calls(s) if s.fn is F]
-    rep.check(len(opens) == 1 and len(oc) == 1, "sql-bracket", "%s/single-open" % label, "one bracket opening, executed once",
-              "expected exactly one opening statement execution, found %d/%d" % (len(opens), len(oc)), F.loc())
+    if raii:
+        if not raii_close:
+            return
+        F = raii_open[0].fn
+        oc = list(raii_open)
+        cc = [c for c in raii_close if c.fn is F]
+        ac = []
+        rep.note("%s: the bracket is a rusqlite %s guard (RAII): rollback happens when the guard is dropped" % (label, "Transaction/Savepoint"))
+        rep.check(len(oc) == 1, "sql-bracket", "%s/single-open" % label, "one transaction guard, created once",
+                  "expected exactly one transaction guard, found %d" % len(oc), F.loc())
+    else:
+        if not (opens and closes and aborts):
+            return
+        F = opens[0].fn
+        oc = [c for s in opens for c in exec_calls(s)]
+        cc = [c for s in closes for c in exec_calls(s) if s.fn is F]
+        ac = [c for s in aborts for c in exec_calls(s) if s.fn is F]
+        rep.check(len(opens) == 1 and len(oc) == 1, "sql-bracket", "%s/single-open" % label, "one bracket opening, executed once",
+                  "expected exactly one opening statement execution, found %d/%d" % (len(opens), len(oc)), F.loc())
     if not oc:
         return
     # every write is success-dominated by the opening, in every calling context below the method
@@ -85,7 +112,13 @@ def bracket(prog, rep, sites, method, label, is_open, is_close, is_abort):
         r = A.reach_without_edges(F, s, set(), cb | ab)
         if r & errb:
             esc_err = True
-    rep.check(bool(ab) and not esc_err, "sql-bracket", "%s/abort-on-err" % label,
+    if raii:
+        rep.check(not raii_defused, "sql-bracket", "%s/abort-on-err" % label,
+                  "every exit without commit drops the transaction guard, which rolls back (default drop behaviour, guard never leaked)",
+                  "the transaction guard's rollback-on-drop is disabled (%s): an error exit leaves the transaction open / committed"
+                  % ", ".join(sorted(set(c.name for c in raii_defused))), F.loc())
+    else:
+      rep.check(bool(ab) and not esc_err, "sql-bracket", "%s/abort-on-err" % label,
               "every error exit after the opening passes the abort statement",
               "an error exit is reachable after the opening without rolling the bracket back", F.loc())
     # one connection guard for the whole bracket
@@ -100,7 +133,7 @@ def run(ctx, rep):
     sites = sqlmod.collect(prog)
     rep.fns_analysed = len(list(prog.nontest_fns(("mdk_sqlite_storage",))))
     rep.counts["sql_statements"] = len(sites)
-    rep.clause("C12.a snapshot creation and restore (SQLite): one BEGIN IMMEDIATE..COMMIT bracket success-dominating every write, COMMIT on every Ok return, ROLLBACK on every error exit, one connection guard")
+    rep.clause("C12.a snapshot creation and restore (SQLite): one BEGIN..COMMIT bracket (or a rusqlite Transaction guard) success-dominating every write, COMMIT on every Ok return, ROLLBACK on every error exit, one connection guard")
     rep.clause("C12.b replace_group_relays: DELETE and INSERTs inside SAVEPOINT..RELEASE with ROLLBACK TO on the error side")
     rep.not_decided = ("recoverability after process death at statement k of process_message / create_group / merge_pending_commit / "
                        "accept_welcome (these API calls are sequences of auto-committed statements — visible in the code, but what state "
@@ -123,11 +156,11 @@ def run(ctx, rep):
         bracket(prog, rep, sites, ms["replace_group_relays"][0], "replace_group_relays",
                 lambda st: st.kind == "SAVEPOINT", lambda st: st.kind == "RELEASE",
                 lambda st: st.kind == "ROLLBACK" and "SAVEPOINT" in st.text.upper())
-    # BEGIN IMMEDIATE (write lock up front)
-    for s in sites:
-        if s.stmt.kind == "BEGIN":
-            rep.check("IMMEDIATE" in s.stmt.text.upper(), "sql-bracket", "begin-immediate/%s" % last_seg(s.fn.root), "transaction takes the write lock up front",
-                      "transaction is not BEGIN IMMEDIATE", s.loc())
+    # BEGIN IMMEDIATE vs DEFERRED is not a verdict: a deferred transaction is still all-or-nothing (a failed lock upgrade is an
+    # error exit, which rolls back); recorded as context only
+    for s_ in sites:
+        if s_.stmt.kind == "BEGIN":
+            rep.note("context: %s opens its transaction with `%s`" % (last_seg(s_.fn.root), s_.stmt.text.strip()[:40]))
     # context (not a verdict): API calls are not wrapped in a transaction
     rep.note("context: mdk-core API calls (process_message, create_group, ...) issue auto-committed statements; no storage-level "
              "transaction spans them (not claimed, see Not decided)")
